@@ -8,6 +8,7 @@ import (
 	"fmt"
 	"math/big"
 	"os"
+	"sort"
 	"strconv"
 	"strings"
 	"time"
@@ -17,64 +18,105 @@ import (
 
 // ---------------------------------------------------------------- member order
 
-// keyOrderJSON: the keys of a JSON text in document order (depth first), with
-// the rank of each value among the scalars, so that two members swapped show.
+// keyOrderJSON: what the MEANING of a JSON text needs of its member order.
+// JSON objects are unordered, so a re-ordering of distinct keys changes
+// nothing; but of a key that occurs more than once in an object the last
+// occurrence wins (encoding/json), so the relative order of ITS occurrences
+// matters: the one that is last must stay last.  The result lists, for
+// every object of the text and every key that occurs more than once in it,
+// how often it occurs and the value of its LAST occurrence (canonical form,
+// members of nested objects sorted stably by key); the
+// entries are sorted, so the result does not depend on where an object
+// stands.
 func keyOrderJSON(text []byte) string {
 	dec := json.NewDecoder(bytes.NewReader(text))
 	dec.UseNumber()
-	var sb strings.Builder
-	var walk func() error
-	walk = func() error {
-		t, err := dec.Token()
-		if err != nil {
-			return err
-		}
-		d, ok := t.(json.Delim)
-		if !ok {
-			if str, isStr := t.(string); isStr {
-				sb.WriteString(strconv.QuoteToASCII(str) + ";")
-			} else {
-				fmt.Fprintf(&sb, "%v;", t)
-			}
-			return nil
-		}
-		if d == '[' {
-			sb.WriteString("[")
+	var sigs []string
+	if _, err := dupDec(dec, &sigs); err != nil {
+		return "E(" + err.Error() + ")"
+	}
+	sort.Strings(sigs)
+	return strings.Join(sigs, " ")
+}
+
+func dupDec(dec *json.Decoder, sigs *[]string) (string, error) {
+	t, err := dec.Token()
+	if err != nil {
+		return "", err
+	}
+	switch v := t.(type) {
+	case nil:
+		return "null", nil
+	case bool:
+		return strconv.FormatBool(v), nil
+	case json.Number:
+		return canonNum(string(v)), nil
+	case string:
+		return canonStr(v), nil
+	case json.Delim:
+		if v == '[' {
+			var parts []string
 			for dec.More() {
-				if err := walk(); err != nil {
-					return err
+				x, err := dupDec(dec, sigs)
+				if err != nil {
+					return "", err
 				}
+				parts = append(parts, x)
 			}
-			dec.Token()
-			sb.WriteString("]")
-			return nil
+			if _, err := dec.Token(); err != nil {
+				return "", err
+			}
+			return "[" + strings.Join(parts, ";") + "]", nil
 		}
-		sb.WriteString("{")
+		type member struct{ k, v string }
+		var ms []member
+		count := map[string]int{}
 		for dec.More() {
 			k, err := dec.Token()
 			if err != nil {
-				return err
+				return "", err
 			}
 			ks, _ := k.(string)
-			sb.WriteString(strconv.QuoteToASCII(ks) + ":")
-			if err := walk(); err != nil {
-				return err
+			x, err := dupDec(dec, sigs)
+			if err != nil {
+				return "", err
+			}
+			ms = append(ms, member{canonStr(ks), x})
+			count[canonStr(ks)]++
+		}
+		if _, err := dec.Token(); err != nil {
+			return "", err
+		}
+		var order []string
+		seen := map[string]bool{}
+		for _, m := range ms {
+			if count[m.k] > 1 && !seen[m.k] {
+				seen[m.k] = true
+				var vals []string
+				for _, m2 := range ms {
+					if m2.k == m.k {
+						vals = append(vals, m2.v)
+					}
+				}
+				// the last occurrence is the one that counts
+				order = append(order, fmt.Sprintf("%s=<%d-times-last:%s>", m.k, len(vals), vals[len(vals)-1]))
 			}
 		}
-		dec.Token()
-		sb.WriteString("}")
-		return nil
+		*sigs = append(*sigs, order...)
+		sort.SliceStable(ms, func(i, j int) bool { return ms[i].k < ms[j].k })
+		parts := make([]string, len(ms))
+		for i, m := range ms {
+			parts[i] = m.k + ":" + m.v
+		}
+		return "{" + strings.Join(parts, ";") + "}", nil
 	}
-	if err := walk(); err != nil {
-		return "E(" + err.Error() + ")"
-	}
-	return sb.String()
+	return "", fmt.Errorf("unexpected token")
 }
 
 // genWideObjects: objects of 13..40 members whose keys repeat (the same key
 // bare and quoted is the same key), values all different, in JSONx and in
-// plain JSON: the emitted JSON must list the members in source order, and
-// the decoded value must be what encoding/json reads (the last one wins).
+// plain JSON: of a repeated key the occurrences must keep their order (the
+// last one wins), and the decoded value must be what encoding/json reads.
 func genWideObjects(b *builder, n int) {
 	g := b.g
 	pool := []string{"timeout", "name", "a", "b", "deps", "x", "k9", "port", "true", "a b"}
